@@ -7,6 +7,7 @@ import (
 	"errors"
 	"fmt"
 	"io"
+	"math"
 	"math/rand"
 	"net/http"
 	"net/http/httptest"
@@ -23,6 +24,7 @@ import (
 	"github.com/getkin/kin-openapi/routers"
 	"github.com/getkin/kin-openapi/routers/gorillamux"
 	"github.com/getkin/kin-openapi/routers/legacy"
+	yaml "github.com/oasdiff/yaml"
 
 	"verif/internal/core"
 	"verif/internal/gen"
@@ -52,7 +54,7 @@ type c10Witness struct {
 func init() {
 	core.Register(&core.Check{
 		ID:   "C10",
-		Rule: "documents: PRNG-generated OpenAPI documents (half of them biased to legal-but-unusual features: exclusive flags without bounds, multipleOf 0, parameters and headers defined by content, recursive component schemas, path items without operations, discriminators, every format, extreme bounds, server variables incl. port) that load and pass document validation, plus every JSON/YAML file under the repository's testdata directories that loads and validates; per document and per router (gorillamux, legacy): grammar-built requests (declared template filled, declared parameters rendered) mutated with hostile methods, path segments, query keys (malformed deepObject brackets, negative/huge indexes, repeated keys), header/cookie values, Content-Types (malformed parameters, missing boundary) and bodies (truncated/deep JSON, broken forms/multipart/YAML/CSV, binary, nil vs empty), all option sets, then FindRoute, ValidateRequest, ValidateResponse (hostile status/headers/body, nil body), ConvertErrors + error encoders, and both middleware modes. Distinct = (document hash, message hash); non-trivial = the message got past routing (a route was found).",
+		Rule: "documents: PRNG-generated OpenAPI documents (half of them biased to legal-but-unusual features: exclusive flags without bounds, multipleOf 0, parameters and headers defined by content, recursive component schemas, path items without operations, discriminators, every format, extreme bounds, server variables incl. port) that load and pass document validation, plus every JSON/YAML file under the repository's testdata directories that loads and validates; per document and per router (gorillamux, legacy): grammar-built requests (declared template filled, declared parameters rendered) mutated with hostile methods, path segments, query keys (malformed deepObject brackets, negative/huge indexes, repeated keys), header/cookie values, Content-Types (malformed parameters, missing boundary) and bodies (truncated/deep JSON, broken forms/multipart/YAML/CSV, binary, nil vs empty, YAML renderings of the valid body with .nan/.inf at every numeric leaf), parameter names that are not identifiers (brackets, parentheses, regexp metacharacters, dots, spaces), all option sets, then FindRoute, ValidateRequest, ValidateResponse (hostile status/headers/body, nil body), ConvertErrors + error encoders, and both middleware modes. Distinct = (document hash, message hash); non-trivial = the message got past routing (a route was found).",
 		Assumptions: []string{
 			"documents that fail Load or Validate are discarded (counted); only documents passing Validate are in scope",
 			"hang = one message consuming more than 30 CPU-seconds; memory blow-up = 8 GiB address-space limit hit (both reported with the message)",
@@ -90,8 +92,47 @@ var c10ContentTypes = []string{"application/json", "application/json; charset=ut
 	"application/x-www-form-urlencoded", "multipart/form-data", "multipart/form-data; boundary=", "multipart/form-data; boundary=XX", "multipart/form-data; boundary=\"", "text/plain", "text/csv", "application/yaml", "application/x-yaml",
 	"application/octet-stream", "application/xml", "application/problem+json", "*/*", "application/*", "", "text/plain; charset=\xff", "a/b/c", "application/zip"}
 
+// c10SpecialFloats rewrites the numeric leaves of a JSON value as .nan / .inf / -.inf and renders YAML
+// (a YAML body is how such numbers reach validation).
+func c10SpecialFloats(r *rand.Rand, valid []byte) []byte {
+	var v any
+	if json.Unmarshal(valid, &v) != nil {
+		v = nil
+	}
+	specials := []float64{math.NaN(), math.Inf(1), math.Inf(-1)}
+	n := 0
+	var walk func(x any) any
+	walk = func(x any) any {
+		switch t := x.(type) {
+		case float64:
+			n++
+			return specials[r.Intn(3)]
+		case []any:
+			for i := range t {
+				t[i] = walk(t[i])
+			}
+		case map[string]any:
+			for _, k := range sortedKeys(t) {
+				t[k] = walk(t[k])
+			}
+		}
+		return x
+	}
+	v = walk(v)
+	if n == 0 {
+		v = map[string]any{"id": math.NaN(), "a": []any{math.Inf(1)}, "f": math.NaN(), "g": []any{math.NaN()}, "h": map[string]any{"x": math.Inf(-1)}, "tags": map[string]any{"x": math.NaN()}, "lives": math.NaN()}
+	}
+	b, err := yaml.Marshal(v)
+	if err != nil {
+		return []byte("id: .nan\n")
+	}
+	return b
+}
+
 func c10Bodies(r *rand.Rand, valid []byte) []byte {
-	switch r.Intn(24) {
+	switch r.Intn(26) {
+	case 24, 25:
+		return c10SpecialFloats(r, valid)
 	case 0, 1, 2, 3:
 		return valid
 	case 4:
@@ -673,7 +714,9 @@ func replayC10(c *core.Ctx, raw json.RawMessage) {
 	if d == nil {
 		return
 	}
-	mkW := func(stage string, m c10Msg) c10Witness { return c10Witness{DocSource: w.DocSource, Doc: w.Doc, Stage: stage, Msg: m} }
+	mkW := func(stage string, m c10Msg) c10Witness {
+		return c10Witness{DocSource: w.DocSource, Doc: w.Doc, Stage: stage, Msg: m}
+	}
 	for _, name := range []string{"gorillamux", "legacy"} {
 		var rr routers.Router
 		var err error
